@@ -111,7 +111,7 @@ impl CoreDID {
   ///
   /// Returns `Err` if the input is not a valid [`DID`].
   pub fn parse(input: impl AsRef<str>) -> Result<Self, Error> {
-    parse_base_did_url(input.as_ref()).map(Self)
+    parse_base_did_url(input.as_ref()).and_then(Self::try_from)
   }
 
   /// Set the method name of the [`DID`].
@@ -195,6 +195,7 @@ impl TryFrom<BaseDIDUrl> for CoreDID {
   type Error = Error;
 
   fn try_from(base_did_url: BaseDIDUrl) -> Result<Self, Self::Error> {
+    Self::check_validity(&base_did_url)?;
     Ok(Self(base_did_url))
   }
 }
